@@ -659,13 +659,35 @@ func (in *Interp) store(fr *frame, addr Val, v Val) {
 		if p == nil {
 			in.goPanicStr("invalid memory address or nil pointer dereference")
 		}
-		*p = copyVal(v)
+		storeInPlace(p, v)
 	case BPtr:
 		a := (*p.Cell).(BArr)
 		*p.Cell = BArr{in.ctx.Store(a.A, p.Idx, v.(*smt.Term))}
 	default:
 		panic(fmt.Sprintf("store through %T", addr))
 	}
+}
+
+// storeInPlace assigns v to *p keeping the identity of aggregate cells (pointers
+// to fields/elements taken earlier stay valid, as in Go).
+func storeInPlace(p *Val, v Val) {
+	switch rhs := v.(type) {
+	case Struct:
+		if lhs, ok := (*p).(Struct); ok && len(lhs) == len(rhs) {
+			for i := range lhs {
+				storeInPlace(&lhs[i], rhs[i])
+			}
+			return
+		}
+	case Arr:
+		if lhs, ok := (*p).(Arr); ok && len(lhs) == len(rhs) {
+			for i := range lhs {
+				storeInPlace(&lhs[i], rhs[i])
+			}
+			return
+		}
+	}
+	*p = copyVal(v)
 }
 
 // boundsCheck forks on idx in [0,n) and raises an index panic on the failing side.
